@@ -704,6 +704,7 @@ func main() {
 		r := hx.Rand()
 		impConstStage(r)
 		sockStage()
+		slowWriterStage()
 		hostStage(*hx.Work)
 		emStage(r)
 		per, nops := 200, 40
